@@ -4,6 +4,9 @@ META = {
 }
 
 
+import os
+
+
 def run_cli_delivery(tier="quick", seed=0):
     """BOUNDED stand-in: every open finding of EVERY supplied result file reaches its codemod through the real CLI (issues and hotspots
     files together, two files of one kind, a SARIF result with two locations in different files)."""
@@ -64,6 +67,63 @@ def run_cli_delivery(tier="quick", seed=0):
             "clause": "files fixed == files that carry an open finding in any of the supplied result files"}
 
 
+def run_sarif_tool_map(tier="quick", seed=0):
+    """BOUNDED stand-in for the routing step in front of the SARIF readers: `detect_sarif_tools` on generated families of SARIF files whose
+    `runs` arrays mix runs of the registered tools (each tool at most once in the family, so no duplicate-tool error is due), foreign tools and
+    malformed runs, in every order: tool -> files must list exactly the files that carry a run of that tool."""
+    import itertools
+    import json
+    import random
+    import shutil
+    import tempfile
+    from pathlib import Path
+    from codemodder.sarifs import detect_sarif_tools
+    rng = random.Random(seed)
+    base = Path(tempfile.mkdtemp(prefix="pyvc_c12map_"))
+    known = {"semgrep": ["Semgrep OSS", "semgrep"], "codeql": ["CodeQL"]}
+    foreign = [{"tool": {"driver": {"name": "Bandit"}}, "results": []}, {"results": []}, {"tool": {}}, {"tool": {"driver": {"name": "ESLint"}}}]
+    evals, bad = 0, None
+    try:
+        layouts = []
+        tools = list(known)
+        # one file with both tools (both orders, with and without foreign runs in between); two files one tool each; one tool only
+        for order in itertools.permutations(tools):
+            for pad in (0, 1, 2):
+                layouts.append([[("tool", t) for t in order[:1]] + [("foreign", None)] * pad + [("tool", t) for t in order[1:]]])
+            layouts.append([[("tool", order[0])], [("foreign", None), ("tool", order[1])]])
+            layouts.append([[("foreign", None), ("tool", order[0])]])
+        layouts.append([[("foreign", None)], [("foreign", None), ("foreign", None)]])
+        for k, files in enumerate(layouts):
+            paths, want = [], {}
+            for j, runs in enumerate(files):
+                doc = {"version": "2.1.0", "runs": []}
+                p = base / f"l{k}_f{j}.sarif"
+                for kind, t in runs:
+                    if kind == "tool":
+                        doc["runs"].append({"tool": {"driver": {"name": rng.choice(known[t])}}, "results": []})
+                        want.setdefault(t, []).append(str(p))
+                    else:
+                        doc["runs"].append(rng.choice(foreign))
+                p.write_text(json.dumps(doc))
+                paths.append(p)
+            evals += 1
+            try:
+                got = {t: list(v) for t, v in detect_sarif_tools(paths).items() if v}
+            except Exception as e:      # noqa
+                got = f"raised {type(e).__name__}: {e}"
+            if got != want and bad is None:
+                bad = {"clause": "tool -> files lists exactly the files that carry a run of that tool", "files": [json.loads(p.read_text())["runs"] for p in paths],
+                       "expected": {t: [os.path.basename(x) for x in v] for t, v in want.items()},
+                       "observed": got if isinstance(got, str) else {t: [os.path.basename(x) for x in v] for t, v in got.items()}}
+    finally:
+        shutil.rmtree(base, ignore_errors=True)
+    return {"kind": "bounded", "id": "bounded:detect_sarif_tools routes every SARIF file to every tool that has a run in it", "status": "refuted" if bad else "discharged",
+            "bound": f"{evals} families of 1-2 SARIF files, 1-4 runs each (semgrep / codeql / foreign / malformed runs in every order; each tool at most once)",
+            "evaluations": evals, "witness": bad, "func": "codemodder.sarifs.detect_sarif_tools",
+            "reason": "" if not bad else f"clause '{bad.get('clause')}' fails", "replay": {"reproduced": True, "detail": json.dumps(bad, default=str)[:2000]} if bad else None,
+            "clause": "detect_sarif_tools(files)[t] == [f for f in files if some run of f is recognised by detector t]"}
+
+
 def extra_checks(tier="quick", seed=0):
     from contracts.props.readers_bounded import run
-    return run(tier, seed) + [run_cli_delivery(tier, seed)]
+    return run(tier, seed) + [run_cli_delivery(tier, seed), run_sarif_tool_map(tier, seed)]
